@@ -81,6 +81,7 @@ def judge_success_late(sc, lines_in, impl_out):
 class C12(PropBase):
     id = 'C12'
     partial_passes = 0.25
+    rx_only_passes = 0.4
     lean_modules = ['Isotp.Props.C12']
     theorems = []  # filled as proofs land
     rule = ('queues of {empty, single-frame, multi-frame, generator-backed (exact/short/long), rate-limited} payloads x peers {cooperative, '
